@@ -246,6 +246,10 @@ def filter_args(func, ignore_lst, args=(), kwargs=dict()):
                 "Cannot inspect object %s, ignore list will not work." % func,
                 stacklevel=2,
             )
+        if isinstance(func, functools.partial) and inspect.ismethod(func.func):
+            # The instance the wrapped method is bound to is an argument of
+            # the call, as for a plain bound method.
+            args = [func.func.__self__] + args
         return {"*": args, "**": kwargs}
     arg_sig = inspect.signature(func)
     # Names of the parameters that can be passed positionally, in order
